@@ -146,7 +146,7 @@ def run_env(job):
                         "print_summary=1:handle_abort=0:max_malloc_fill_size=4096:malloc_fill_byte=190:" \
                         "quarantine_size_mb=64:symbolize=1"
     e["UBSAN_OPTIONS"] = "halt_on_error=1:print_stacktrace=1"
-    e["TSAN_OPTIONS"] = "halt_on_error=0:report_signal_unsafe=0:second_deadlock_stack=0:history_size=2:exitcode=0"
+    e["TSAN_OPTIONS"] = "halt_on_error=0:report_signal_unsafe=0:second_deadlock_stack=0:history_size=2:exitcode=0:atexit_sleep_ms=0"
     e["VC_DEADLINE_S"] = str(DEADLINE)
     e["TMPDIR"] = os.path.join(BUILD, "tmp")
     os.makedirs(e["TMPDIR"], exist_ok=True)
@@ -154,14 +154,42 @@ def run_env(job):
     return e
 
 
+import threading
+_cpu_lock = threading.Lock()
+_free_cpus = None
+
+
+def _acquire_cpu():
+    """a CPU of our own for a job whose threads hand control to each other (E2): keeps every hand-off a same-CPU switch"""
+    global _free_cpus
+    with _cpu_lock:
+        if _free_cpus is None:
+            _free_cpus = sorted(os.sched_getaffinity(0))
+        return _free_cpus.pop(0) if _free_cpus else None
+
+
+def _release_cpu(c):
+    if c is not None:
+        with _cpu_lock:
+            _free_cpus.append(c)
+
+
 def run_job(job, exe, logdir, extra_args=()):
     t0 = time.time()
+    cpu = _acquire_cpu() if job.env.get("VC_PIN") else None
+    try:
+        return _run_job(job, exe, logdir, extra_args, cpu, t0)
+    finally:
+        _release_cpu(cpu)
+
+
+def _run_job(job, exe, logdir, extra_args, cpu, t0):
     errp = os.path.join(logdir, job.name + ".err")
     outp = os.path.join(logdir, job.name + ".out")
     with open(errp, "wb") as ef, open(outp, "wb") as of:
         try:
-            r = subprocess.run([exe] + job.args + list(extra_args), stdout=of, stderr=ef, env=run_env(job),
-                               timeout=job.timeout, cwd=os.path.join(BUILD, "tmp"))
+            r = subprocess.run((["taskset", "-c", str(cpu)] if cpu is not None else []) + [exe] + job.args + list(extra_args),
+                               stdout=of, stderr=ef, env=run_env(job), timeout=job.timeout, cwd=os.path.join(BUILD, "tmp"))
             rc = r.returncode
         except subprocess.TimeoutExpired:
             rc = -999
